@@ -56,8 +56,9 @@ def run(check):
                   "deployed first, or left free, plus random delay plans; monitor: every exec-start / deploy-call is preceded in the log by the "
                   "production event of everything it refers to, and the logged input equals the reference evaluation over the logged values; plus step inputs with a "
                   "field that cannot be evaluated (the step must not be started without it) and programs with members that are ready from the start under "
-                  "multi-site delay plans; "
-                  "non-trivial = at least one cross-step reference; distinct = (shape, referencing field kinds, consumer-first gating, arrival order)")
+                  "multi-site delay plans; (h) output logging with a slow log target while other steps complete; (i) inputs read from an input file whose scalars a type-resolving "
+                  "YAML reader would re-type (leading zeros, hex, underscores, yes/no): steps must be given the text / base-ten value the declared schema yields; "
+                  "(h) output logging with a slow log target while other steps complete; (i) inputs read from an input file whose scalars a type-resolving YAML reader would re-type (leading zeros, hex, underscores, yes/no); non-trivial = at least one cross-step reference; distinct = (shape, referencing field kinds, consumer-first gating, arrival order)")
     check.assumptions = ["values carry provenance: every scripted step derives its output from its input and its own name"]
     items = []
     gates_of = {}
@@ -117,6 +118,24 @@ def run(check):
             sites += [{"point": "wf:loopState.onStageComplete:%s" % rng.choice(["store#1", "store#1", "resolve#2", "store#2"]), "hit": h, "ms": 15} for h in range(1, 9)]
             plan = {"sites": sites, "record": True}
         case, sem = runfam.build_case("c02-e%04d" % j, g, plan=plan, plan_scope="execute")
+        gates_of[case["id"]] = []
+        items.append((case, sem, g))
+    # (h) the engine is configured to log `success` outputs and its log target is slow: while one step's output is being
+    # written to the log, other steps complete and deliveries run
+    for j in range(check.pick(100, 800)):
+        rng = random.Random(derive_seed(check.seed, "c02-logged", j))
+        g = runfam.gen_terminating(check.seed, "c02-lg%d" % j, p_fail=0.1, outcomes=["error", "crash"], shape=rng.choice(["fan_in", "diamond", "chain", "fan_out", "multiref", "fan_in_step", "random_dag"]))
+        if g is None:
+            continue
+        for src in list(g["scripts"]):
+            if rng.random() < 0.5:
+                ds = g["scripts"][src].get("deploys") or [{}, {}]
+                while len(ds) < 2:
+                    ds.append({})
+                ds[1] = dict(ds[1], delay_ms=rng.choice([5, 15, 30]))
+                g["scripts"][src]["deploys"] = ds
+        g["shape"] += "/slow-output-log"
+        case, sem = runfam.build_case("c02-lo%04d" % j, g, logged_outputs={"success": rng.choice([20, 40]), "error": 10})
         gates_of[case["id"]] = []
         items.append((case, sem, g))
     orders = set()
@@ -241,10 +260,51 @@ def run(check):
         scripts = gen.make_scripts([a, h], {})
         scripts["a"]["deploys"] = [{}, {"delay_ms": 40}]
         whole.append({"id": "c02-w%04d" % j, "files": prog.files(), "scripts": scripts, "runs": [{"input": gen.base_input(rng)}], "what": "%s: %s" % (field, text)})
+    # (i) the workflow input comes from an input file (engine entry point): the steps are given what the text of the file says
+    # once the declared input schema has typed it - a string field keeps its text, an integer field is read in base ten
+    from ..model import InputSchema
+    fsch = InputSchema({"s": {"type": "string"}, "i": {"type": "integer"}, "fl": {"type": "float"}, "ls": {"type": ("list", "string"), "required": False}})
+    FILE_DOCS = [("s: 007\ni: 12\nfl: 1.5\n", {"s": "007", "i": 12, "fl": 1.5}), ("s: 1.10\ni: 010\nfl: 1.50\n", {"s": "1.10", "i": 10, "fl": 1.5}),
+                 ("s: 0x10\ni: 0011\nfl: 2\n", {"s": "0x10", "i": 11, "fl": 2.0}), ("s: 1_000\ni: -07\nfl: 1e3\n", {"s": "1_000", "i": -7, "fl": 1000.0}),
+                 ("s: 0o17\ni: 5\nfl: 0.25\nls: [01, 1.0, 0x1, yes, 'no']\n", {"s": "0o17", "i": 5, "fl": 0.25, "ls": ["01", "1.0", "0x1", "yes", "no"]}),
+                 ("{s: yes, i: '08', fl: '3.0'}\n", {"s": "yes", "i": 8, "fl": 3.0}), ("s: 2001-01-01\ni: 7\nfl: 7\n", {"s": "2001-01-01", "i": 7, "fl": 7.0}),
+                 ("s: plain words\ni: 12\nfl: -0.5\n", {"s": "plain words", "i": 12, "fl": -0.5})]
+    file_cases = []
+    for j, (text, doc) in enumerate(FILE_DOCS):
+        a = gen.plugin_step("a", Expr(In("s")), extra_input={"n": Expr(In("i")), "f": Expr(In("fl")), "a": Expr(In())})
+        b = gen.plugin_step("b", gen.tagref("a"), extra_input={"a": dict({"s": Expr(In("s")), "i": Expr(In("i"))}, **({"ls": Expr(In("ls"))} if "ls" in doc else {})), "n": Expr(In("i"))})
+        prog = Program([b, a], {"success": {"b": gen.tagref("b"), "all": Expr(In())}}, fsch)
+        file_cases.append(({"id": "c02-i%04d" % j, "mode": "engine", "files": prog.files(), "scripts": gen.make_scripts([a, b], {}), "runs": [], "extra": {"engine": {"input_yaml": text}}}, text, doc))
     with harness.Runner() as rn:
         runfam.run_and_monitor(check, rn, items, {"C02"}, on_result=on_result, monitor=monitor)
         seq_out = rn.run_cases([c for c, _s in seq_cases])
         wout = rn.run_cases([{k: v for k, v in c.items() if k != "what"} for c in whole])
+        fout = rn.run_cases([c for c, _t, _d in file_cases])
+    for case, text, doc in file_cases:
+        o = fout.get(case["id"], {})
+        check.count()
+        res = o.get("result") or {}
+        if "result" not in o or res.get("parse_err") or res.get("prepare_err"):
+            check.inconclusive_case(case["id"], str(o.get("death", {}).get("key") or res.get("parse_err") or res.get("prepare_err")))
+            continue
+        seen = {}
+        for e in res.get("events") or []:
+            if e["kind"] == "exec-start" and e["src"] in ("a", "b"):
+                seen[e["src"]] = ref.denum((e.get("data") or {}).get("raw") or {})
+        if len(seen) < 2:
+            check.report("file@steps-not-run", "input file %r: steps a and b did not both run: %s" % (text, ((res.get("runs") or [{}])[0].get("err") or "")[:200]), {"case": case})
+            continue
+        exp_a = {"tag": doc["s"], "n": doc["i"], "f": doc["fl"], "a": doc}
+        exp_b_a = {"s": doc["s"], "i": doc["i"]}
+        if "ls" in doc:
+            exp_b_a["ls"] = doc["ls"]
+        got_a = {k: seen["a"].get(k) for k in exp_a}
+        got_b = {"a": seen["b"].get("a"), "n": seen["b"].get("n")}
+        mm = ref.match(exp_a, got_a) or ref.match({"a": exp_b_a, "n": doc["i"]}, got_b)
+        if mm:
+            check.report("file@value-differs-from-input-file", "input file %r: a step was given something else than the file says under the declared schema: %s (a: %r, b: %r)" % (text, mm, got_a, got_b),
+                         {"case": case})
+        check.nontrivial("file|%d" % len(text))
     for c in whole:
         o = wout.get(c["id"], {})
         check.count()
